@@ -1,4 +1,5 @@
 import SakuraVerif.Lemmas.Core
+import SakuraVerif.Lemmas.ExecInv
 /-! # C12 (T0) — tracks are independent; TrackSync and PLAY align them as documented
 
 On `Spec.Core.sem`: selecting a track materialises every missing track with **its own** default
@@ -93,5 +94,25 @@ theorem C12_play_covers_first (p : List Cmd) (ps : List (List Cmd)) (i : Nat) (s
 
 -- non-vacuity: TR(3) c TR(2) d on the initial state: tracks 1..3 get channels 0,1,2
 example : ((semL [.track 3, .track 2] St.init).tr.map (·.ch)) = [0, 0, 1, 2] := by decide
+
+/-! ## independence on the literal runner model (T1)
+
+`Ex2.exec` is the model of `runner::exec` tied to the code by the `exec` stream.  For **every** token list without
+`TR`/`TrackSync` at any depth — notes, chords, tuplets, `Sub`, loops, ties, Random settings, controllers, tempo, `TIME`,
+key and slur settings … — and every state: the run leaves the current track selected and all other tracks (pointer,
+settings, events) exactly as they were.  No well-formedness assumption, any fuel, any nesting depth. -/
+
+theorem C12_exec_other_tracks_untouched (F D : Nat) (toks : List Lx.Tok) (h : ∀ a ∈ toks, Ex2.NoTrack a)
+    (s s' : Ex2.Song) (he : Ex2.exec F D toks s = some s') :
+    s'.cur = s.cur ∧ s'.tracks.length = s.tracks.length ∧ ∀ i : Nat, i ≠ s.cur → s'.tracks[i]? = s.tracks[i]? :=
+  Ex2.exec_indep F D toks h s s' he
+
+/-- the same for a single command of any kind other than `TR`/`TrackSync` (e.g. a whole `Sub{…}` or tuplet with its children) -/
+theorem C12_command_local (F d : Nat) (tk : Lx.Tok) (h : Ex2.NoTrack tk) (s : Ex2.Song) :
+    (Ex2.leaf F d tk s).cur = s.cur ∧ ∀ i : Nat, i ≠ s.cur → (Ex2.leaf F d tk s).tracks[i]? = s.tracks[i]? :=
+  ⟨(Ex2.leaf_indep F d tk s h).1, (Ex2.leaf_indep F d tk s h).2.2⟩
+
+-- non-vacuity: a state with three tracks, the second selected; a run of note / Sub tokens changes only that track
+example : Ex2.NoTrack (Lx.tok .octaveRel 1 []) := .mk _ _ _ _ _ _ (by decide) (by decide) (fun _ h => by cases h)
 
 end Sakura.Props.C12
